@@ -442,7 +442,7 @@ def values_close(a, b, rel=1e-9, ab=1e-9):
             return False
         return all(values_close(x, y, rel, ab) for x, y in zip(a, b))
     if isinstance(a, bool) or isinstance(b, bool):
-        return bool(a) == bool(b) if not (isinstance(a, float) or isinstance(b, float)) else float(a) == float(b)
+        return float(a) == float(b)
     fa, fb = float(a), float(b)
     if fa != fa or fb != fb:
         return fa != fa and fb != fb
